@@ -219,6 +219,13 @@ func c12Sequence(c *core.Ctx, k c12Cfg, length int) {
 	_ = xml.Unmarshal(mb, &spMD)
 	w.Registry[spMD.EntityID] = &spMD
 	seen := map[string]string{}
+	// forms handed out earlier must stay what they were when later messages are created (a caller may hold several)
+	type held struct {
+		page []byte // the slice the library returned
+		copy []byte // its content at that time
+		desc string
+	}
+	var holding []held
 	for step := 0; step < length; step++ {
 		kind := c.Rng.Intn(6) // 0 authn-redirect 1 authn-post 2 logoutreq-redirect 3 logoutreq-post 4 logoutresp-redirect 5 logoutresp-post
 		relay := c12Str(c)
@@ -249,6 +256,18 @@ func c12Sequence(c *core.Ctx, k c12Cfg, length int) {
 		c.Eval()
 		served := rnd.Stream()
 		replay := map[string]any{"case": desc, "relay_state": relay, "name_id": nameID, "request_id": reqID}
+		for _, h := range holding {
+			if !bytes.Equal(h.page, h.copy) {
+				c.Violation(fmt.Sprintf("C12/post/earlier-form-changed-by-later-creation/kind%d", kind), fmt.Sprintf("the form returned for (%s) changed after creating (%s)", truncate(h.desc, 200), truncate(desc, 200)), map[string]any{"earlier": h.desc, "later": desc, "was": string(trunc(h.copy, 1500)), "now": string(trunc(h.page, 1500))})
+				return
+			}
+		}
+		if page != nil {
+			holding = append(holding, held{page: page, copy: append([]byte(nil), page...), desc: desc})
+			if len(holding) > 4 {
+				holding = holding[1:]
+			}
+		}
 		if p {
 			c.Violation("C12/panic/"+frame+"/"+panicClass(pv), fmt.Sprintf("panic %v (%s)", pv, desc), replay)
 			return
